@@ -14,6 +14,7 @@ pub enum Case {
     Trn(crate::trn::Case),
     Dsp(crate::dsp::Case),
     Thr(crate::thr::Case),
+    Io(crate::io::Case),
 }
 
 impl Case {
@@ -26,6 +27,7 @@ impl Case {
             Case::Trn(c) => c.hash_seed,
             Case::Dsp(c) => c.hash_seed,
             Case::Thr(c) => c.hash_seed(),
+            Case::Io(c) => c.hash_seed(),
         }
     }
     pub fn world_name(&self) -> &'static str {
@@ -37,11 +39,13 @@ impl Case {
             Case::Trn(_) => "trn",
             Case::Dsp(_) => "dsp",
             Case::Thr(_) => "thr",
+            Case::Io(_) => "io",
         }
     }
     pub fn size(&self) -> usize {
         match self {
             Case::Thr(c) => c.size(),
+            Case::Io(c) => c.size(),
             Case::Dsp(c) => c.trains.len() * 10 + c.walk_plans as usize + c.trains.iter().map(|t| t.spec.consist.len() + t.spec.cars.len() + (t.depart != (t.depart / 100.0).round() * 100.0) as usize).sum::<usize>() + c.links.iter().map(|l| l.link_idxs_lockout.len() + l.headings.len()).sum::<usize>(),
             Case::Trn(c) => c.crashes.len() + c.interval_changes.len() + c.route.len() * 4 + c.train.consist.len() + c.train.cars.len() + c.train.cars.iter().map(|x| (x.n as usize) / 8).sum::<usize>()
                 + match &c.kind { crate::trn::Kind::SetSpeed { trace, .. } => trace.len(), crate::trn::Kind::LimitManual { auths, .. } => 3 + auths.len() * 2, crate::trn::Kind::LimitTimed { .. } => 3, _ => 1 }
@@ -94,7 +98,13 @@ const THR_REAL: &[&str] = &["LocomotiveSimulationVec::walk and every LocomotiveS
 const THR_STUB: &[&str] = &["rayon's pool in the controlled runs: executor seam H2 reproducing try_for_each's contract on shuttle threads (W workers claim from a shared queue; after an error no new claims, in-flight elements finish)", "thread scheduler: shuttle Random / PCT, seeded", "getrandom(2): interposed, RandomState keys derived from the case"];
 const THR_RULE: &str = "a case = (a) batch of 1-12 generated locomotive simulations (some failing at a seeded step) + worker count 1-16 + scheduler (Random or PCT depth 2-4) + 24 (quick) / 60 (thorough) seeded schedules, or (b) a case of world trn/dsp/trk/val executed under hash keys A, A, B, or (c) a batch on a real rayon pool; distinct = distinct hash of (scenario class, fault kinds, probes, first 8 distinct claim orders seen); non-trivial = at least 2 elements and 2 workers (a, c) / the inner case's own rule (b)";
 
+const IO_REAL: &[&str] = &["SerdeAPI::{to_yaml,to_json,to_bincode,from_*,from_reader,to_file,from_file,init} of every exported type (real code)", "LocomotiveSimulation / ConsistSimulation / SetSpeedTrainSim / SpeedLimitTrainSim stepping before and after the reload (real code)", "real files in a private scratch directory (file channel)"];
+const IO_STUB: &[&str] = &["reader: simulated Read with short reads, EINTR, hard error at a seeded byte", "crash during a save: modelled after the fact by truncating the written bytes (exercised, not armed: nobody promises atomic saves)"];
+const IO_RULE: &str = "a case = (a) the zoo of 25 exported types in default / valid states, or (b) a generated locomotive / consist simulation of 4-40 steps with EVERY step index as a crash point x 3 formats (string or faulty-reader channel), with limit checking on or off and optional braking in the first steps, or (c) a generated set-speed / speed-limited train simulation (finished or unfinished path) with 8 sampled crash points x 3 formats, plus round trips of its builder, path, network and est-time network, or (d, 30 %) a pt-world run with seeded crash ops and a fault-free twin; distinct = distinct hash of (scenario class, fault kinds fired); non-trivial = at least 5 steps";
+
 pub const PROPS: &[PropInfo] = &[
+    PropInfo { id: "C17", world: "io", level: "fault_enumeration", quick_runs: 1200, thorough_runs: 80_000, rule: IO_RULE, real: IO_REAL, stub: IO_STUB,
+        assumptions: &["equality = identical yaml rendering (bit-exact floats; NaN sentinels equal themselves; lazily rebuilt #[serde(skip)] caches are not part of it)", "reload vs original is compared for yaml and bincode; for json only 'no drift' and 1e-9 on resumed totals (statement's own allowance)", "atomicity of to_file against a crash during the write is not claimed"] },
     PropInfo { id: "C18", world: "thr", level: "exploration", quick_runs: 900, thorough_runs: 60_000, rule: THR_RULE, real: THR_REAL, stub: THR_STUB,
         assumptions: &["the controlled runs go through the executor seam, not through rayon's own call expression; the real rayon branch is only observed (DESIGN 6)", "hash-order control relies on std resolving getrandom as a weak symbol (start-up self-test guards it)", "data races in safe Rust are excluded by the type system: what a schedule can expose is hidden shared state and order-dependent reduction"] },
     PropInfo { id: "C04", world: "dsp", level: "exploration", quick_runs: 700, thorough_runs: 40_000, rule: DSP_RULE, real: DSP_REAL, stub: DSP_STUB,
@@ -163,6 +173,8 @@ pub fn generate(prop: &str, rng: &mut Rng, thorough: bool) -> Case {
     let world = match prop {
         "C19" => Some(if rng.chance(0.35) { "trn" } else { "pt" }),
         "C20" => Some(if rng.chance(0.05) { "trn" } else { "mass" }),
+        // C17: the io world enumerates crash points; the pt world adds seeded crash ops with a fault-free twin
+        "C17" => Some(if rng.chance(0.3) { "pt" } else { "io" }),
         _ => info(prop).map(|i| i.world),
     };
     match world {
@@ -173,6 +185,7 @@ pub fn generate(prop: &str, rng: &mut Rng, thorough: bool) -> Case {
         Some("trn") => Case::Trn(crate::trn::generate(rng, prop, thorough)),
         Some("dsp") => Case::Dsp(crate::dsp::generate(rng, prop, thorough)),
         Some("thr") => Case::Thr(crate::thr::generate(rng, prop, thorough)),
+        Some("io") => Case::Io(crate::io::generate(rng, prop, thorough)),
         _ => panic!("no world for property {prop}"),
     }
 }
@@ -186,6 +199,7 @@ pub fn execute(case: &Case, ctx: &mut Ctx) {
         Case::Trn(c) => crate::trn::execute(c, ctx),
         Case::Dsp(c) => crate::dsp::execute(c, ctx),
         Case::Thr(c) => crate::thr::execute(c, ctx),
+        Case::Io(c) => crate::io::execute(c, ctx),
     }
 }
 
@@ -196,6 +210,7 @@ pub fn shrink(case: &Case, v: &Violation) -> Vec<Case> {
         Case::Trn(c) => crate::trn::shrink(c).into_iter().map(Case::Trn).collect(),
         Case::Dsp(c) => crate::dsp::shrink(c).into_iter().map(Case::Dsp).collect(),
         Case::Thr(c) => crate::thr::shrink(c).into_iter().map(Case::Thr).collect(),
+        Case::Io(c) => crate::io::shrink(c).into_iter().map(Case::Io).collect(),
         Case::Pt(c) => crate::pt::shrink(c).into_iter().map(Case::Pt).collect(),
         Case::Trk(c) => crate::trk::shrink(c).into_iter().map(Case::Trk).collect(),
     }
@@ -215,6 +230,14 @@ pub fn panic_property(case: &Case, layer: &str, location: &str) -> Option<&'stat
         Case::Val(_) => Some("C16"),
         Case::Mass(_) => Some("C20"),
         Case::Thr(_) => Some("C18"),
+        // storage code panicking is C17's; a panic of the simulation code while an io-world run steps it is not
+        Case::Io(_) => {
+            if location.contains("traits.rs") || location.contains("serde") || location.contains("bincode") || location.contains("link_idx.rs") {
+                Some("C17")
+            } else {
+                None
+            }
+        }
         // by the layer the driver was in: est-time construction steps trains (C03), the graph code is C15's,
         // everything inside run_dispatch is C05's ("never aborts on inputs accepted by validation and est-time construction")
         Case::Dsp(_) => match layer {
